@@ -9,7 +9,9 @@
 // calls (deferred mode), or that executes the operation inside start() (inline mode, the
 // behaviour of unifex::inline_scheduler).  Like every libunifex scheduler (inline_scheduler,
 // manual_event_loop, thread pools) the schedule-operation completes with set_done when the stop
-// token of ITS receiver has a stop request at the moment it runs.
+// token of ITS receiver has a stop request at the moment it runs — so if completion_forwarder ever
+// again connected the reschedule with a receiver that forwards the waiter's stop token (DESIGN §8
+// #3, repaired), the "lock leaked" monitor below fires.
 //
 // Monitors (independent of the Lean model): two holders in the critical section, a waiter
 // completed twice, mutex locked at quiescence although nobody holds it (lock leaked), a started
@@ -279,8 +281,10 @@ SCENARIO(v2_handoff_stop) {
   w.quiesce();
 }
 
-// Deterministic reproducer of DESIGN §8 #3 (every schedule): hold; queue waiters 0 and 1; unlock
+// Regression scenario for DESIGN §8 #3 (repaired in /repo): hold; queue waiters 0 and 1; unlock
 // (hand-off to 0, completion re-scheduled); only THEN one thread requests stop on waiter 0; drain.
+// Waiter 0 must still get set_value (it owns the lock), unlock, and waiter 1 must be served.
+// Before the repair every schedule of this scenario ended with "lock leaked".
 SCENARIO(v2_leak_seq) {
   W2 w;
   w.try_hold(0);
